@@ -112,7 +112,7 @@ func TestFreeRunning(t *testing.T) {
 					rec := httptest.NewRecorder()
 					webstack.SnapshotHandler(rec, httptest.NewRequest(m, "/debug?"+q, nil))
 					c := newChecker()
-					c.checkResponse(m, q, rec.Code, rec.Header().Get("Content-Type"), rec.Body.String(), queryValid(m, q), -1, false)
+					c.checkResponseReg(m, q, rec.Code, rec.Header().Get("Content-Type"), rec.Body.String(), queryValid(m, q), -1, false, -1)
 					for _, f := range c.findings {
 						errs <- f.Clause + ": " + f.Msg
 					}
